@@ -28,8 +28,12 @@ def gen_ring(rng, nops):
             else:
                 j = rng.below(3)
                 if j != i:                          # the source may be unallocated as well
-                    k = rng.below(4)
+                    k = rng.below(5)
                     cp = None if st[j] is None else [st[j][0], list(st[j][1])]
+                    if k == 4:
+                        if st[j] is not None:
+                            ops.append("SL,%d,%d,0,%d,%s" % (i, j, st[j][0], ".".join(str(x) for x in st[j][1]))); st[i] = cp
+                        continue
                     if k == 3: ops.append("CA,%d,%d" % (i, j)); st[i] = cp   # copy-assign onto an unallocated buffer
                     elif k == 0: ops.append("MA,%d,%d" % (i, j)); st[i] = st[j]; st[j] = None
                     elif k == 1: ops.append("CC,%d,%d" % (i, j)); st[i] = cp
@@ -42,7 +46,7 @@ def gen_ring(rng, nops):
         elif mode == 2: w = [("PF", 40), ("PoB", 38), ("PB", 3), ("PoF", 3)]
         elif mode == 3: w = [("PB", 30), ("PF", 30), ("PoF", 10), ("PoB", 10)] if can_push else [("PoF", 40), ("PoB", 40)]
         else: w = [("PB", 20), ("PF", 20), ("PoF", 18), ("PoB", 18)]
-        w += [("Q", 8), ("MT", 2), ("CL", 2), ("D", 2), ("CA", 3), ("MA", 2), ("CC", 2), ("MC", 2)]
+        w += [("Q", 8), ("MT", 2), ("CL", 2), ("D", 2), ("CA", 3), ("MA", 2), ("CC", 2), ("MC", 2), ("SL", 2)]
         tot = sum(x for _, x in w); pick = rng.below(tot); name = None
         for nme, x in w:
             if pick < x: name = nme; break
@@ -55,6 +59,12 @@ def gen_ring(rng, nops):
         elif name == "CL": ops.append("CL,%d" % i); v[1] = []
         elif name == "MT": ops.append("MT,%d" % i); v[1] = []
         elif name == "D": ops.append("D,%d" % i); st[i] = None
+        elif name == "SL":
+            # save buffer j, load it into buffer i (which has storage here): "SL,i,j,a,m,v1.v2..."
+            j = rng.below(3)
+            if j == i or st[j] is None: continue
+            ops.append("SL,%d,%d,1,%d,%s" % (i, j, st[j][0], ".".join(str(x) for x in st[j][1])))
+            st[i] = [st[j][0], list(st[j][1])]
         elif name in ("CA", "MA", "CC", "MC"):
             j = rng.below(3)
             if j == i: continue
@@ -74,7 +84,11 @@ def gen_svec(rng, nops):
             n = rng.below(8); ops.append("R,%d,%d" % (i, n)); st[i] = (l + [0] * n)[:n] if n > len(l) else l[:n]; alloc[i] = True
         elif r < 60:
             if l: k = rng.below(len(l)); x = 1 + rng.below(90); ops.append("S,%d,%d,%d" % (i, k, x)); l[k] = x
-        elif r < 65: ops.append("X,%d" % i); st[i] = []; alloc[i] = False
+        elif r < 62: ops.append("X,%d" % i); st[i] = []; alloc[i] = False
+        elif r < 65:
+            # fill(x) / fill(): every element assigned; "F,i,x,n" carries the current size for the model side
+            if rng.chance(1, 3): ops.append("F0,%d,%d" % (i, len(l))); st[i] = [0] * len(l)
+            else: x = 1 + rng.below(90); ops.append("F,%d,%d,%d" % (i, x, len(l))); st[i] = [x] * len(l)
         elif r < 75:
             j = rng.below(3)
             if j != i: ops.append("MA,%d,%d" % (i, j)); st[i] = st[j]; st[j] = []; alloc[i] = alloc[j]; alloc[j] = False
